@@ -729,6 +729,13 @@ def _outerpin_install_sites(f):
                     and (norm(n.value.func).endswith("OuterPin") or norm(n.value.func).endswith("OuterPinExtended")
                          or norm(n.value.func).endswith("from_instance_and_inner_pin")):
                 out.append((n, norm(t.value.value), norm(t.slice), [norm(a) for a in n.value.args]))
+        # X._pins.update((K, OuterPin(X', K')) for K in ...)
+        if isinstance(n, ast.Call) and isinstance(n.func, ast.Attribute) and n.func.attr == "update" and isinstance(n.func.value, ast.Attribute) \
+                and n.func.value.attr == "_pins" and n.args and isinstance(n.args[0], (ast.GeneratorExp, ast.ListComp)) \
+                and isinstance(n.args[0].elt, ast.Tuple) and len(n.args[0].elt.elts) == 2 and isinstance(n.args[0].elt.elts[1], ast.Call):
+            k_, v_ = n.args[0].elt.elts
+            if norm(v_.func).endswith(("OuterPin", "OuterPinExtended", "from_instance_and_inner_pin")):
+                out.append((n, norm(n.func.value.value), norm(k_), [norm(a) for a in v_.args]))
     return out
 
 
@@ -769,11 +776,11 @@ def _m1(ctx, R):
             for fa, rl, tk in res["exit"]:
                 if rl[rel_i][0] != "+":
                     continue
-                has = any(t.startswith("W:Instance._pins.setitem:") or (t.startswith("V:") and t.endswith(":Instance._pins.setitem")) for t in tk)
+                has = any(t.startswith(("W:Instance._pins.setitem:", "W:Instance._pins.update:")) or (t.startswith("V:") and t.endswith((":Instance._pins.setitem", ":Instance._pins.update"))) for t in tk)
                 looped = [t for t in tk if t.startswith("L:") and "references" in t]
                 fa = fa | frozenset(expand_defs(a, fa) for a in fa if not a.startswith("def("))
                 nodef = any(a in fa for a in ("falsy(self.definition)", "is(self.definition,None)", "falsy(self._definition)", "is(self._definition,None)"))
-                via_callee = any(t.startswith("V:") and t.endswith(":Instance._pins.setitem") for t in tk)
+                via_callee = any(t.startswith("V:") and t.endswith((":Instance._pins.setitem", ":Instance._pins.update")) for t in tk)
                 if not (looped or nodef or via_callee):
                     ok_all = False
                     why = "a path links the %s and returns without iterating the definition's references to create the outer pins" % what
@@ -845,9 +852,9 @@ def _m_setter(ctx, R):
         old_names = ["old:%s.reference" % recv]
         problems = []
         for fa, rl, tk in res["exit"]:
-            if not any(t.startswith("W:Instance._reference.set:%s:" % recv) for t in tk):
-                continue
-            new_is_none = ("is(%s,None)" % val) in fa if val else False
+            if not any(t == "W:Instance._reference.set:%s:%s" % (recv, val if val is not None else "") for t in tk):
+                continue  # exits on which this very write was performed
+            new_is_none = (("is(%s,None)" % val) in fa or val == "None") if val else False
             new_not_none = ("isnot(%s,None)" % val) in fa if val else False
             old_none = any(("is(%s,None)" % o) in fa or ("falsy(%s)" % o) in fa for o in old_names)
             added = any(t.startswith("W:Definition._references.add:%s:%s" % (val, recv)) for t in tk) or \
@@ -875,15 +882,15 @@ def _m_setter(ctx, R):
         # M1 on the from-None branch and M4 on the re-point branch: classify exits by what they did to _pins
         from_none_ok, repoint_ok = None, None
         for fa, rl, tk in res["exit"]:
-            if not any(t.startswith("W:Instance._reference.set:%s:" % recv) for t in tk):
-                continue
-            if ("is(%s,None)" % val) in fa:
+            if not any(t == "W:Instance._reference.set:%s:%s" % (recv, val if val is not None else "") for t in tk):
+                continue  # exits on which this very write was performed
+            if ("is(%s,None)" % val) in fa or val == "None":
                 continue
             old_none = any(("is(%s,None)" % o) in fa for o in old_names)
             built = any(t == "K:OuterPin.__init__" for t in tk)
             popped = any(t.startswith("W:Instance._pins.pop:") for t in tk)
             if old_none:
-                looped = any(t.startswith("L:") and ".ports" in t for t in tk)
+                looped = any((t.startswith("L:") or t.startswith("W:Instance._pins.update:")) and ".ports" in t for t in tk)
                 if not looped:
                     from_none_ok = "a path from no reference to a definition does not iterate the definition's ports to create outer pins"
                 elif from_none_ok is None:
